@@ -620,7 +620,7 @@ class ReferenceProperty(Property):
         return value, has_custom
 
 
-SELECTOR_REGEX = re.compile(r"^([a-z0-9_-]{3,250}(\.(\[\d+\]|[a-z0-9_-]{1,250}))*|id)\Z")
+SELECTOR_REGEX = re.compile(r"^([a-z0-9_-]{3,250}(\.(\[[0-9]+\]|[a-zA-Z0-9_-]{1,250}))*|id)\Z")
 
 
 class SelectorProperty(Property):
